@@ -113,10 +113,12 @@ func (s *socket) SendMsg(m *protocol.Message) error {
 }
 
 func (s *socket) RecvMsg() (*protocol.Message, error) {
+	// The deadline covers the whole call: it is armed once, not again
+	// each time a queue resize makes us go round the loop.
+	timeQ := nilQ
 	for {
-		timeQ := nilQ
 		s.Lock()
-		if s.recvExpire > 0 {
+		if timeQ == nilQ && s.recvExpire > 0 {
 			timeQ = time.After(s.recvExpire)
 		}
 		closeQ := s.closeQ
